@@ -14,9 +14,30 @@ type Matcher struct {
 	Label string `json:"label"`
 	Op    string `json:"op"` // = != =~ !~
 	Value string `json:"value"`
-	// Class: "" when some series of the metric family carries the label; otherwise
-	// "absent-label/matches-empty" or "absent-label/rejects-empty" (data shape)
-	Class string `json:"class,omitempty"`
+	// data shape of the matcher, computed when it is generated:
+	// LabelOn: "all-series" | "some-series" | "no-series" of the metric family carry the label
+	// Empty:   "matches-empty" | "rejects-empty" (does the matcher accept an absent label)
+	// VClass:  kind of value / regular expression
+	LabelOn string `json:"label_on,omitempty"`
+	Empty   string `json:"empty,omitempty"`
+	VClass  string `json:"value_class,omitempty"`
+	// Unanchored: the regular expression matches a proper substring of some value of the
+	// label but not the whole value (anchoring matters)
+	Unanchored bool `json:"unanchored_differs,omitempty"`
+}
+
+// Desc is the abstract form of the matcher used in shapes and finding signatures.
+// The most significant property comes first so that a family of findings is a prefix.
+func (m Matcher) Desc() string {
+	switch {
+	case m.LabelOn == "no-series":
+		return "label-on-no-series/" + m.Empty + " " + m.Op + m.VClass
+	case m.Value == "":
+		return "empty-value " + m.Op + " label-on-" + m.LabelOn
+	case m.Unanchored:
+		return "regex-unanchored-differs " + m.Op + m.VClass + " label-on-" + m.LabelOn + "/" + m.Empty
+	}
+	return m.Op + m.VClass + " label-on-" + m.LabelOn + "/" + m.Empty
 }
 
 // Node is an expression of the generated PromQL subset.
@@ -157,11 +178,7 @@ func (n *Node) Shape() string {
 	sel := func(withRange bool) string {
 		ops := []string{}
 		for _, m := range n.Matchers {
-			o := m.Op
-			if m.Class != "" {
-				o += "@" + m.Class
-			}
-			ops = append(ops, o)
+			ops = append(ops, m.Desc())
 		}
 		sort.Strings(ops)
 		s := "<" + n.MKind + ">"
@@ -212,6 +229,93 @@ func (n *Node) Shape() string {
 		return "scalar"
 	}
 	return "?"
+}
+
+// Head names the construct a (minimal) disagreeing expression is about: the matchers if
+// any survived minimisation (they are then necessary for the disagreement), else the
+// function / aggregation over its operand kind / binary operation with operand kinds.
+func (n *Node) Head() string {
+	short := func(k *Node) string {
+		p := ""
+		if k.Paren {
+			p = "paren "
+		}
+		switch k.Kind {
+		case "sel":
+			if k.Offset != 0 {
+				return p + "selector offset"
+			}
+			return p + "selector"
+		case "rfn":
+			if k.Offset != 0 {
+				return p + "range-function offset"
+			}
+			return p + "range-function"
+		case "agg":
+			g := k.Grouping
+			if g == "" {
+				g = "all"
+			}
+			return p + "aggregation-" + g
+		case "bin":
+			if k.Paren {
+				return "paren binary"
+			}
+			return "binary"
+		case "num":
+			return "scalar"
+		}
+		return "?"
+	}
+	switch n.Kind {
+	case "sel", "rfn":
+		if len(n.Matchers) > 0 {
+			ds := []string{}
+			for _, m := range n.Matchers {
+				ds = append(ds, m.Desc())
+			}
+			sort.Strings(ds)
+			return "matcher{" + strings.Join(ds, ",") + "}"
+		}
+		if n.Kind == "sel" {
+			return short(n)
+		}
+		return short(n) + ":" + n.Fn
+	case "agg":
+		g := ""
+		if n.Grouping != "" {
+			g = " " + n.Grouping
+		}
+		return "aggregation of " + short(n.Child) + ":" + n.Op + g
+	case "bin":
+		op := n.Op
+		if n.Bool {
+			op += " bool"
+		}
+		if n.Match != "" {
+			op += " " + n.Match
+		}
+		return "binary " + short(n.L) + "," + short(n.R) + ":" + op
+	}
+	return short(n)
+}
+
+// windows lists, for every selector of the expression, how far back its data window
+// reaches (range or look-back, plus offset) and where it ends (offset), in ms before the
+// evaluation time.
+func (n *Node) windows(into *[][2]int64) {
+	if n == nil {
+		return
+	}
+	switch n.Kind {
+	case "sel":
+		*into = append(*into, [2]int64{n.Offset + lookbackMs, n.Offset})
+	case "rfn":
+		*into = append(*into, [2]int64{n.Offset + n.Range, n.Offset})
+	}
+	n.Child.windows(into)
+	n.L.windows(into)
+	n.R.windows(into)
 }
 
 // Kids returns the instant-vector sub-expressions (for minimisation of a disagreement).
@@ -316,8 +420,12 @@ func (n *Node) Constructs(into map[string]struct{}) {
 	selTags := func() {
 		for _, m := range n.Matchers {
 			into["matcher:"+m.Op] = struct{}{}
-			if m.Class != "" {
-				into["matcher-on-"+m.Class] = struct{}{}
+			into["matcher-label-on-"+m.LabelOn] = struct{}{}
+			if m.Unanchored {
+				into["matcher-regex-where-anchoring-matters"] = struct{}{}
+			}
+			if m.Value == "" {
+				into["matcher-empty-value"] = struct{}{}
 			}
 		}
 		if n.Offset > 0 {
@@ -446,10 +554,10 @@ func (g *gen) matcher(metric string, op string) Matcher {
 		labels = append(labels, k)
 	}
 	sort.Strings(labels)
-	if _, ok := lv[labelAbsentKey]; !ok {
-		labels = append(labels, labelAbsentKey) // a label no series of the family has
-	}
 	l := pick(g, labels)
+	if _, ok := lv[labelAbsentKey]; !ok && g.rng.IntN(12) == 0 {
+		l = labelAbsentKey // a label no series of the family has
+	}
 	vals := lv[l]
 	if op == "" {
 		op = pick(g, []string{"=", "!=", "=~", "!~"})
@@ -457,18 +565,24 @@ func (g *gen) matcher(metric string, op string) Matcher {
 	var v string
 	switch op {
 	case "=", "!=":
-		switch r := g.rng.IntN(10); {
-		case r < 7 && len(vals) > 0:
+		switch r := g.rng.IntN(20); {
+		case r < 16 && len(vals) > 0:
 			v = pick(g, vals)
-		case r < 8:
+		case r < 17:
 			v = ""
 		default:
 			v = "nosuch"
 		}
 	default:
-		cands := []string{".+", ".*", "nosuch|none", ""}
+		cands := []string{".+", ".*", "nosuch|none"}
+		if g.rng.IntN(4) == 0 {
+			cands = append(cands, "")
+		}
 		for _, x := range vals {
 			cands = append(cands, x, x[:1]+".*", ".*"+x[len(x)-1:], x+"|zzz")
+			if len(x) > 1 && g.rng.IntN(3) == 0 {
+				cands = append(cands, x[:len(x)-1], x[1:]) // proper prefix / suffix: anchoring matters
+			}
 		}
 		if len(vals) >= 2 {
 			cands = append(cands, vals[0]+"|"+vals[1], "("+vals[0]+"|"+vals[len(vals)-1]+")")
@@ -484,13 +598,63 @@ func (g *gen) matcher(metric string, op string) Matcher {
 		v = pick(g, cands)
 	}
 	m := Matcher{Label: l, Op: op, Value: v}
-	if len(vals) == 0 {
-		m.Class = "absent-label/rejects-empty"
-		if matchesEmpty(m) {
-			m.Class = "absent-label/matches-empty"
+	g.set.classify(metric, &m)
+	return m
+}
+
+// classify fills the data-shape fields of a matcher against the sample set.
+func (set *SampleSet) classify(metric string, m *Matcher) {
+	have := 0
+	for _, s := range set.byMetric[metric] {
+		if _, ok := s.Labels[m.Label]; ok {
+			have++
 		}
 	}
-	return m
+	switch {
+	case have == 0:
+		m.LabelOn = "no-series"
+	case have == len(set.byMetric[metric]):
+		m.LabelOn = "all-series"
+	default:
+		m.LabelOn = "some-series"
+	}
+	m.Empty = "rejects-empty"
+	if matchesEmpty(*m) {
+		m.Empty = "matches-empty"
+	}
+	v := m.Value
+	switch m.Op {
+	case "=", "!=":
+		m.VClass = "value"
+		if v == "" {
+			m.VClass = "\"\""
+		}
+	default:
+		switch {
+		case v == "":
+			m.VClass = "\"\""
+		case v == ".*" || v == ".+":
+			m.VClass = v
+		case strings.Contains(v, "[^"):
+			m.VClass = "negated-class"
+		case strings.Contains(v, "["):
+			m.VClass = "class"
+		case strings.Contains(v, "|"):
+			m.VClass = "alternation"
+		case strings.Contains(v, "."):
+			m.VClass = "wildcard"
+		default:
+			m.VClass = "literal"
+		}
+		if re, err := regexp.Compile(v); err == nil {
+			full := regexp.MustCompile("^(?:" + v + ")$")
+			for _, x := range set.labelVals[metric][m.Label] {
+				if re.MatchString(x) != full.MatchString(x) {
+					m.Unanchored = true
+				}
+			}
+		}
+	}
 }
 
 func matchesEmpty(m Matcher) bool {
@@ -584,6 +748,16 @@ func (g *gen) agg(op, grouping string, child *Node) *Node {
 func (g *gen) num() *Node { return &Node{Kind: "num", Val: pick(g, numbers)} }
 
 func (g *gen) binScalar(op string, boolMod bool, scalarLeft bool, child *Node) *Node {
+	if op == "%" && !(child.Kind == "sel" && (child.MKind == "counter" || child.MKind == "small")) {
+		// x % y is discontinuous: a last-digit rounding difference of a computed operand
+		// legitimately changes the result by y, so % is applied to exact sample values only
+		m := pick(g, []string{"req_total", "queue_len"})
+		if ss := g.set.byMetric[m]; len(ss) > 0 {
+			child = g.sel(m, ss[0].Kind, "")
+		} else {
+			op = "+"
+		}
+	}
 	n := &Node{Kind: "bin", Op: op, Bool: boolMod}
 	if g.rng.IntN(5) == 0 {
 		c := *child
@@ -607,6 +781,9 @@ func (g *gen) vv(form int, op string) *Node {
 			op = pick(g, arithOps)
 		}
 	}
+	if op == "%" { // see binScalar
+		op = "-"
+	}
 	n := &Node{Kind: "bin", Op: op}
 	if isCmp(op) && g.rng.IntN(2) == 0 {
 		n.Bool = true
@@ -627,6 +804,7 @@ func (g *gen) vv(form int, op string) *Node {
 		mk := func(code string) *Node {
 			s := &Node{Kind: "rfn", Metric: "req_total", MKind: "counter", Fn: "rate", Range: 300000,
 				Matchers: []Matcher{{Label: "code", Op: "=", Value: code}}}
+			g.set.classify("req_total", &s.Matchers[0])
 			if g.rng.IntN(2) == 0 {
 				s.Kind, s.Fn, s.Range = "sel", "", 0
 			}
@@ -720,7 +898,7 @@ func (g *gen) next(i int) *Node {
 	if n := g.systematic(i); n != nil {
 		return n
 	}
-	return g.expr(1 + g.rng.IntN(3))
+	return g.expr(1 + g.rng.IntN(2))
 }
 
 // ---- evaluation parameters --------------------------------------------------------------
